@@ -83,10 +83,11 @@ struct Model
 {
     Document doc;
     DocumentBuilder b;
-    Model(): b(doc) { parse_XTA(utap_builtin_declarations(), &b, true, S_DECLARATION, ""); }
+    bool newxta;
+    explicit Model(bool newsyntax = true): b(doc), newxta(newsyntax) { if (newxta) parse_XTA(utap_builtin_declarations(), &b, true, S_DECLARATION, ""); }
     bool load(const std::string& xta, bool features = false)
     {
-        parse_XTA(xta.c_str(), &b, true, S_XTA, "");
+        parse_XTA(xta.c_str(), &b, newxta, S_XTA, "");
         if (!doc.has_errors()) {
             TypeChecker tc{doc};
             doc.accept(tc);
